@@ -231,7 +231,7 @@ def check_cancel_with_flag(vc, clause, evs):
 
 # =============================================================================================== D2
 @harness('D2', targets=['kopf._core.engines.daemons.stop_daemons', 'kopf._core.engines.daemons.stop_daemon'],
-         props=['C09', 'C06'],
+         props=['C09', 'C06', 'C20'],
          clauses=['flag_first', 'stage_table', 'stage_progress', 'cancel_with_flag', 'delays',
                   'delays_nonempty_while_alive', 'returns_collected', 'crash_free',
                   'one.flag_first', 'one.stage_order', 'one.cancel_with_flag', 'one.progress',
